@@ -423,7 +423,9 @@ def compare_cusum(ctx, cid, cfg, xs, tr, mo, info):
     for i in range(len(xs)):
         out, st, total, since, it, isd = tr[i]
         m = mo[i]
-        if (out, total, since) != (m[0], m[2], m[3]) or not optclose(it, m[4]) or not optclose(isd, m[5]):
+        at = _rtol(xs[:i + 1], max(since, cfg["burn_in"]))
+        oc = lambda a, b: optclose(a, b) or (a is not None and b is not None and abs(a - b) <= at)
+        if (out, total, since) != (m[0], m[2], m[3]) or not oc(it, m[4]) or not oc(isd, m[5]):
             ctx.mismatch(component="cusum", case=cid, step=i, cfg=cfg, stream=xs[:i + 1], impl=list(tr[i]), model=list(m))
             return "mismatch"
         if st != m[1]:
@@ -446,7 +448,10 @@ def compare_ph(ctx, cid, cfg, xs, tr, mo):
         m = mo[i]
         bad = out != "ok" or (total, since) != (m[1], m[2]) or row is None
         if not bad:
-            bad = any(not core.close(row[k], m[3][k]) for k in range(8) if k != 4)
+            # the sums are differences of values of the stream's magnitude: two correct evaluation orders differ by the
+            # first-order rounding bound (_rtol), e.g. ~1e-8 for observations near 4e7, 1e-12 for the ordinary dyadic streams
+            at = _rtol(xs[:i + 1], since)
+            bad = any(not (core.close(row[k], m[3][k]) or abs(row[k] - m[3][k]) <= at) for k in range(8) if k != 4)
         if bad:
             ctx.mismatch(component="ph", case=cid, step=i, cfg=cfg, stream=xs[:i + 1], impl=[out, st, total, since, row], model=list(m))
             return "mismatch"
@@ -722,7 +727,13 @@ def search(ctx, mismatches):
         if not cfg or json.dumps(cfg, sort_keys=True) in seen:
             continue
         seen.add(json.dumps(cfg, sort_keys=True))
-        cases = [(cfg, gen_stream(rng, cfg["burn_in"], 10)) for _ in range(10)]
+        if cfg.get("form", 0) in (6, 7):
+            # integer-dtype input forms carry integral observations only (a fractional value would be truncated by the harness
+            # itself, not by the library); keep the magnitude of the mismatching stream
+            lvl = float(np.median(np.asarray(m.get("stream") or [9000.0], dtype=float)))
+            cases = [(cfg, int_stream(rng, cfg["burn_in"], 6, lvl)) for _ in range(10)]
+        else:
+            cases = [(cfg, gen_stream(rng, cfg["burn_in"], 10)) for _ in range(10)]
         evaluate(sub, cases, "search", with_model=False)
     return sub.failing[:5]
 
